@@ -100,6 +100,9 @@ def Ev.wf : Ev → Bool
   | .run c => hostOpt c
   | .call c => hostOpt c
   | .runWith o c => o.isHost && hostOpt c
+  | .evalWith o c => hostOpt o && hostOpt c
+  | .apiCall o c => hostOpt o && hostOpt c
+  | .callback c => hostOpt c
   | .clone => true
   | .root => true
 
@@ -210,6 +213,59 @@ theorem C12_partial_run (p : Prog) (vm : VM) (c : Option OSId) (cache : Cache) (
       decide_eq_true_eq]
     exact ⟨this.1, this.2.elim Or.inl (fun h => Or.inr ⟨h.1, h.2⟩)⟩
 
+/-! ## A machine reused through risor's top-level API, and callbacks fired by the host later -/
+
+/-- **eval_keeps_os.**  `risor.Eval` / `EvalCode` / `Call` on an existing machine (`risor.WithVM`)
+    without `risor.WithOS` leave the machine exactly as it was: the OS it was built with (or was
+    given by an earlier evaluation) stays in force.  With `risor.WithOS(o)` the machine's OS
+    becomes `o` and nothing else changes. -/
+theorem eval_keeps_os (vm : VM) :
+    applyCfg codeFacts vm none = vm ∧
+    ∀ o, (applyCfg codeFacts vm (some o)).os = some o ∧ (applyCfg codeFacts vm (some o)).gf = vm.gf := by
+  refine ⟨rfl, fun o => ⟨rfl, rfl⟩⟩
+
+/-- **C12_partial_eval.**  For every machine, however it came by its OS, every program (any nesting)
+    and every host context: an evaluation through `risor.Eval` / `EvalCode` / `Call` with
+    `risor.WithVM(vm)` that names **no** OS is served exactly as a plain run of that machine would
+    be — under the hypotheses of `C12_partial_run` every observation, in every execution context,
+    is a call on an implementation the host supplied (the machine's own OS or the one in the
+    context); an OS given to the machine earlier is not lost by re-entering it. -/
+theorem C12_partial_eval (p : Prog) (vm : VM) (c : Option OSId) (cache : Cache) (gfFile : Bool)
+    (hc : hostOpt c = true) (hv : hostOpt vm.os = true) (hne : accOf vm c ≠ [])
+    (hgf : ∀ g, vm.gf = some g → g.isHost = true ∧ (g ∈ accOf vm c ∨ gfFile = true))
+    (hguard : staleStd (accOf vm c) cache p = false)
+    (hcache : ∀ s ∈ p.streams, ∀ h, cache.get s = some h → h.isHost = true) :
+    (exec reviewedInventory codeFacts (applyCfg codeFacts vm none)
+        (entryCtx codeFacts (applyCfg codeFacts vm none) c) cache p).1.all
+      (Obs.mediatedBy (accOf vm c) gfFile) = true := by
+  rw [(eval_keeps_os vm).1]
+  exact C12_partial_run p vm c cache gfFile hc hv hne hgf hguard hcache
+
+/-- the context of a callback that Go code fires through the clone-call function of `vm` with a
+    context of its own carries the OS that context holds, else the machine's, else the real one —
+    never "nothing": `clone.initContext` resolves it anew for every such call -/
+theorem foreignCtx_os (vm : VM) (c : Option OSId) :
+    (foreignCtx codeFacts vm c).os = some (getOS codeFacts vm { os := c }) := by
+  rw [foreignCtx_code]
+  simp [entryCtx, codeFacts, initContext]
+
+/-- **C12_partial_callback.**  A script function that the host's Go code calls through the
+    clone-call function (`object.GetCloneCallFunc`) of machine `vm` — at any later time, from any
+    goroutine, with **any context of its own** (one that does not derive from an evaluation context
+    and carries the OS `c` or none: an http request's context, a scheduler's, `Background()`): if the
+    host supplied an OS (the machine's `WithOS`, which the clone inherits, or in that context) then
+    under the hypotheses of `C12_partial_run` every observation of the callback and of everything it
+    calls, spawns, clone-calls or imports is a call on a supplied implementation. -/
+theorem C12_partial_callback (p : Prog) (vm : VM) (c : Option OSId) (cache : Cache) (gfFile : Bool)
+    (hc : hostOpt c = true) (hv : hostOpt vm.os = true) (hne : accOf vm c ≠ [])
+    (hgf : ∀ g, vm.gf = some g → g.isHost = true ∧ (g ∈ accOf vm c ∨ gfFile = true))
+    (hguard : staleStd (accOf vm c) cache p = false)
+    (hcache : ∀ s ∈ p.streams, ∀ h, cache.get s = some h → h.isHost = true) :
+    (exec reviewedInventory codeFacts (clone codeFacts vm) (foreignCtx codeFacts vm c) cache p).1.all
+      (Obs.mediatedBy (accOf vm c) gfFile) = true := by
+  rw [foreignCtx_code, clone_code]
+  exact C12_partial_run p vm c cache gfFile hc hv hne hgf hguard hcache
+
 /-! ## Histories: nothing ever reaches the real OS when every run is supplied -/
 
 /-- pool, shared file and module cache hold nothing but host implementation objects -/
@@ -221,6 +277,9 @@ def StateOK (s : HState) : Prop :=
 def suppliedEv (s : HState) : Ev → Bool
   | .run c => c.isSome || s.vm.os.isSome
   | .call c => c.isSome || s.vm.os.isSome
+  | .evalWith o c => o.isSome || c.isSome || s.vm.os.isSome
+  | .apiCall o c => o.isSome || c.isSome || s.vm.os.isSome
+  | .callback c => c.isSome || s.vm.os.isSome
   | _ => true
 
 /-- every executing event of the history is supplied (evaluated along the history, since whether
@@ -309,6 +368,30 @@ theorem runTop_host (sc : Script) (vm : VM) (c : Option OSId) (cache : Cache)
     have he := exec_host sc.body vm c cache hr hv.2 hcache
     exact ⟨he.1, hv, he.2⟩
 
+/-- a top-level run through the API (`applyCfg` first) on a clean machine for which something is
+    supplied: only calls on host objects, and machine and module cache stay clean -/
+theorem runTop_cfg_host (sc : Script) (vm : VM) (o c : Option OSId) (cache : Cache)
+    (hv : hostOpt vm.os = true ∧ hostOpt vm.gf = true) (ho : hostOpt o = true) (hc : hostOpt c = true)
+    (hs : (o.isSome || c.isSome || vm.os.isSome) = true)
+    (hcache : ∀ st h, cache.get st = some h → h.isHost = true) :
+    (getOS codeFacts (applyCfg codeFacts vm o) { os := c }).isHost = true ∧
+    (∀ ob ∈ (runTop reviewedInventory codeFacts sc (applyCfg codeFacts vm o) c cache).2.1,
+        ObsIn (fun o _ => o.isHost = true) ob) ∧
+    (hostOpt (runTop reviewedInventory codeFacts sc (applyCfg codeFacts vm o) c cache).1.os = true ∧
+      hostOpt (runTop reviewedInventory codeFacts sc (applyCfg codeFacts vm o) c cache).1.gf = true) ∧
+    (∀ st h, (runTop reviewedInventory codeFacts sc (applyCfg codeFacts vm o) c cache).2.2.get st = some h →
+        h.isHost = true) := by
+  cases o with
+  | none =>
+    have hr := resolved_host vm c hc hv.1 (by simpa using hs)
+    exact ⟨hr, runTop_host sc vm c cache hr hv hcache⟩
+  | some x =>
+    have hx : x.isHost = true := by simpa [hostOpt] using ho
+    have hv0 : hostOpt ({ vm with os := some x } : VM).os = true ∧
+        hostOpt ({ vm with os := some x } : VM).gf = true := ⟨by simpa [hostOpt] using hx, hv.2⟩
+    have hr := resolved_host { vm with os := some x } c hc hv0.1 (by simp)
+    exact ⟨hr, runTop_host sc { vm with os := some x } c cache hr hv0 hcache⟩
+
 /-- one event keeps the state clean and, if it executes, produces only calls on host objects -/
 theorem step_host (sc : Script) (s : HState) (e : Ev) (hs : StateOK s) (hwf : e.wf = true)
     (hsup : suppliedEv s e = true) :
@@ -355,12 +438,52 @@ theorem step_host (sc : Script) (s : HState) (e : Ev) (hs : StateOK s) (hwf : e.
     intro t ht
     simp only [step, Option.some.injEq] at ht
     rw [← ht]; exact h.1
+  | evalWith o c =>
+    have hwf' : hostOpt o = true ∧ hostOpt c = true := by simpa [Ev.wf] using hwf
+    have h := runTop_cfg_host sc s.vm o c s.cache hvm hwf'.1 hwf'.2 (by simpa [suppliedEv] using hsup) hs.2
+    refine ⟨setVM_ok s _ _ hs h.2.2.1 h.2.2.2, ?_⟩
+    intro t ht
+    simp only [step, Option.some.injEq] at ht
+    rw [← ht]; exact h.2.1
+  | apiCall o c =>
+    have hwf' : hostOpt o = true ∧ hostOpt c = true := by simpa [Ev.wf] using hwf
+    have h := runTop_cfg_host sc s.vm o c s.cache hvm hwf'.1 hwf'.2 (by simpa [suppliedEv] using hsup) hs.2
+    -- the machine after the top-level code has the same OS; `entry()` then runs on it
+    have hr2 : (getOS codeFacts (runTop reviewedInventory codeFacts sc (applyCfg codeFacts s.vm o) c s.cache).1
+        { os := c }).isHost = true := by
+      have := h.1
+      rw [getOS_code] at this ⊢
+      rw [runTop_os]
+      exact this
+    have h2 := exec_host sc.body (runTop reviewedInventory codeFacts sc (applyCfg codeFacts s.vm o) c s.cache).1
+      c (runTop reviewedInventory codeFacts sc (applyCfg codeFacts s.vm o) c s.cache).2.2 hr2 h.2.2.1.2 h.2.2.2
+    refine ⟨setVM_ok s _ _ hs h.2.2.1 h2.2, ?_⟩
+    intro t ht
+    simp only [step, Option.some.injEq] at ht
+    rw [← ht]
+    intro ob hob
+    cases List.mem_append.1 hob with
+    | inl h1 => exact h.2.1 ob h1
+    | inr h1 => exact h2.1 ob h1
+  | callback c =>
+    have hr := resolved_host s.vm c (by simpa [Ev.wf] using hwf) hvm.1 (by simpa [suppliedEv] using hsup)
+    have h := exec_host sc.body s.vm c s.cache hr hvm.2 hs.2
+    refine ⟨⟨hs.1, ?_⟩, ?_⟩
+    · intro st hh hget
+      simp only [step, foreignCtx_code, clone_code] at hget
+      exact h.2 st hh hget
+    · intro t ht
+      simp only [step, foreignCtx_code, clone_code, Option.some.injEq] at ht
+      rw [← ht]; exact h.1
 
 /-- **C12_partial_never_real.**  For every script and every host history of any length (create,
     run, call, clone, switch, re-option, in any order) in which every run is supplied with an OS —
     by the `WithOS` option of the VM it runs on (directly or inherited through any chain of
     `Clone`s) or in its context — **no observation of any run is on the real operating system**:
     every one is a call on an implementation object of the host, in every execution context.
+    The history may re-enter a machine through `risor.Eval` / `EvalCode` / `Call` + `WithVM` with or
+    without `WithOS` (`evalWith`, `apiCall`) and may fire callbacks through a kept clone-call
+    function with foreign contexts (`callback`).
     (What can still go wrong, and does — `C12_counterexample_other_os` — is that a stream
     attribute is served by the implementation supplied for an *earlier* run.) -/
 theorem C12_partial_never_real (sc : Script) (evs : List Ev) :
@@ -407,6 +530,27 @@ example : accOf { os := some (.host 0), gf := none } none ≠ [] := by decide
 -- without the clone copying the OS the property would fail in a cloned VM (the extractor reads this fact)
 example : runHist reviewedInventory { codeFacts with cloneCopiesOS := false } { pre := false, body := .op .os_getenv }
     initState [.new (some (.host 0)), .run none, .clone, .call none] =
+    [[.via (.host 0) ⟨.getenv, ["$0"]⟩], [.via .real ⟨.getenv, ["$0"]⟩]] := by decide
+
+
+-- a machine built with an OS, re-entered through the API without naming one, then called back by the
+-- host with a bare context of its own: every run is supplied, every run is served by that OS
+example : allSupplied { pre := false, body := .spawn (.op .os_getenv) } initState
+    [.new (some (.host 0)), .run none, .evalWith none none, .apiCall none none, .callback none] = true := by decide
+example : runHist reviewedInventory codeFacts { pre := false, body := .spawn (.op .os_getenv) } initState
+    [.new (some (.host 0)), .run none, .evalWith none none, .callback none, .callback (some (.host 1))] =
+    [[.via (.host 0) ⟨.getenv, ["$0"]⟩], [.via (.host 0) ⟨.getenv, ["$0"]⟩], [.via (.host 0) ⟨.getenv, ["$0"]⟩],
+     [.via (.host 1) ⟨.getenv, ["$0"]⟩]] := by decide
+-- were `Config.VMOpts` to pass `vm.WithOS(cfg.os)` unconditionally, re-entering the machine without
+-- `risor.WithOS` would wipe its OS and the run would reach the real one (the extractor reads this fact)
+example : runHist reviewedInventory { codeFacts with cfgOSOnlyIfSet := false } { pre := false, body := .op .os_getenv }
+    initState [.new (some (.host 0)), .run none, .evalWith none none] =
+    [[.via (.host 0) ⟨.getenv, ["$0"]⟩], [.via .real ⟨.getenv, ["$0"]⟩]] := by decide
+-- were `cloneCallSync` not to re-initialise the context, a callback fired with a foreign context would
+-- find no OS at all, although spawn/clone-call *inside* a run would still see it
+example : runHist reviewedInventory { codeFacts with cloneCallInits := false, spawnInits := false }
+    { pre := false, body := .cloneCall (.spawn (.op .os_getenv)) }
+    initState [.new (some (.host 0)), .run none, .callback none] =
     [[.via (.host 0) ⟨.getenv, ["$0"]⟩], [.via .real ⟨.getenv, ["$0"]⟩]] := by decide
 
 end Risor.C12
